@@ -17,7 +17,15 @@ from tlz import merge
 
 from dask import config, local
 from dask._compatibility import EMSCRIPTEN
-from dask._task_spec import DataNode, Dict, List, Task, TaskRef
+from dask._task_spec import (
+    DataNode,
+    Dict,
+    GraphNode,
+    List,
+    Task,
+    TaskRef,
+    convert_legacy_task,
+)
 from dask.core import flatten
 from dask.core import get as simple_get
 from dask.system import CPU_COUNT
@@ -1158,7 +1166,8 @@ def persist(*args, traverse=True, optimize_graph=True, scheduler=None, **kwargs)
     with shorten_traceback():
         results = schedule(expr, keys, **kwargs)
 
-    d = dict(zip(keys, results))
+    all_keys = set(keys)
+    d = {k: _as_data(k, v, all_keys) for k, v in zip(keys, results)}
     results2 = []
     for rebuild, a_keys, state in postpersists:
         if state is None:
@@ -1170,6 +1179,15 @@ def persist(*args, traverse=True, optimize_graph=True, scheduler=None, **kwargs)
         else:
             results2.append(rebuild({k: d[k] for k in a_keys}, *state))
     return repack(results2)
+
+
+def _as_data(key, value, keys):
+    """A computed value as it is stored in the graph of a persisted collection:
+    as it is, unless the graph machinery would take it for something to run (a
+    tuple headed by a callable, a list or dict holding one, one of the keys)"""
+    if isinstance(convert_legacy_task(key, value, keys), GraphNode):
+        return DataNode(key, value)
+    return value
 
 
 def _colorize(t):
